@@ -179,7 +179,18 @@ impl Hist {
             }
         }
         // (c) quiescent: prefix, whole frames, must-add-nothing
-        let after = self.log();
+        let mut after = self.log();
+        // A reader has no atomicity guarantee against a write(2) in progress: the marker that ended the wait can
+        // sit in a last line whose final bytes are not visible yet. Only an unterminated line that PERSISTS is a
+        // finding, so re-read for a while before judging.
+        for _ in 0..40 {
+            if after.is_empty() || after.last() == Some(&b'\n') {
+                break;
+            }
+            tokio::time::sleep(std::time::Duration::from_millis(25)).await;
+            after = self.log();
+            r.count("rereads_for_unterminated_tail", 1);
+        }
         if !has_prefix(&after, &self.old) {
             let sig = if after.len() < self.old.len() { "log_shrunk" } else { "prefix_changed" };
             r.violation(
